@@ -143,7 +143,16 @@ pub fn step(w: &mut World, e: &Value) -> Value {
 			if a.get("args").is_some() {
 				a = a["args"].clone();
 			}
-			w.process_invoice(&wn, &sl, &a, None)
+			let ov = if e["tamper"] == "ttl_past" {
+				// the invoice as delivered claims a cut-off height that has long passed
+				w.pick(&sl, "I1", 0).map(|mut s| {
+					s.ttl_cutoff_height = 1;
+					s
+				})
+			} else {
+				None
+			};
+			w.process_invoice(&wn, &sl, &a, ov)
 		}
 		"build_coinbase" => w.build_coinbase(
 			&wn,
